@@ -5,4 +5,4 @@ GROUP = g09util.GROUP
 
 
 def run(ctx):
-    g09util.run_property(ctx, "C10", "c10", "C10.v", [])
+    g09util.run_property(ctx, "C10", "c10", "C10.v", [], e2e=60)
